@@ -6,6 +6,18 @@ to lattice coordinates, must lie within tol of THE transport coefficient of the 
 as decided by the Coq checker Model/Interstitial.diagnose over the ring Z (soundness theorem
 C02_checker_sound);  (b) float tier -- random energies/prefactors, implementation vs the corrector
 formula evaluated in numpy, and GFCrystalcalc.D vs the same."""
+META = dict(
+    level="proof",
+    text=("Theorems (all ordered rings, all finite networks): the transport coefficient is independent of the corrector "
+          "used, equals the code's D0 + bias.gamma form, per-site Kirchhoff suffices, and the executable certificate checker is "
+          "sound. Tie: exact correspondence (Coq checker over Z encloses the implementation's D by the unique exact coefficient "
+          "for dyadic data) plus a float tier with random energies against the corrector formula, also for GFCrystalcalc.D."),
+    note=("Trusted: Coq kernel/vm_compute; harness network construction from the implementation's own sitelist/jumpnetwork "
+          "(jump enumeration itself is C21); identification of the long-time diffusivity with the corrector formula; float "
+          "tolerance 1e-9 relative. Not modelled: LAPACK solve/pinv internals, rounding."),
+    technique="Coq proof (Net.v transport theory) + certificate-checking correspondence over Z",
+)
+
 import numpy as np
 from fractions import Fraction
 from . import gen, netcase
